@@ -1,0 +1,32 @@
+//go:build verif
+
+package cri
+
+import (
+	"github.com/containerd/stargz-snapshotter/service/resolver"
+	runtime "k8s.io/cri-api/pkg/apis/runtime/v1"
+)
+
+// VerifNewCRIKeychain builds the same instrumentedService as NewCRIKeychain but takes the backend
+// CRI image-service client directly (nil = "not connected yet"), skipping the 10 s connection retry loop.
+func VerifNewCRIKeychain(client runtime.ImageServiceClient) (resolver.Credential, runtime.ImageServiceServer) {
+	server := &instrumentedService{config: make(map[string]*runtime.AuthConfig)}
+	server.cri = client
+	return server.credentials, server
+}
+
+// VerifSetClient performs the assignment the connection goroutine of NewCRIKeychain does on success.
+func VerifSetClient(s runtime.ImageServiceServer, client runtime.ImageServiceClient) {
+	in := s.(*instrumentedService)
+	in.criMu.Lock()
+	in.cri = client
+	in.criMu.Unlock()
+}
+
+// VerifConfigLen returns the number of image references for which an auth config is currently kept.
+func VerifConfigLen(s runtime.ImageServiceServer) int {
+	in := s.(*instrumentedService)
+	in.configMu.Lock()
+	defer in.configMu.Unlock()
+	return len(in.config)
+}
